@@ -578,6 +578,14 @@ def rule_N2(src, lo, hi, enabled):
                         out.append(("N2", toks[body_close].start, toks[body_close].start, "} "))
                         p = qc + 1
                         continue
+                    if len(inner) >= 2 and inner[-2:] == ["continue", ";"] and "continue" not in inner[:-2] and "break" not in inner \
+                            and (qc + 1 >= n or toks[qc + 1].text != "else"):
+                        # `if C { stmts; continue; } rest`  ->  `if C { stmts } else { rest }`
+                        ci = qc - 2  # token index of `continue`
+                        out.append(("N2", toks[ci].start, toks[qc].end, "} else {"))
+                        out.append(("N2", toks[body_close].start, toks[body_close].start, "} "))
+                        p = qc + 1
+                        continue
                     break
                 # skip one statement
                 while p < body_close and toks[p].text != ";":
